@@ -683,16 +683,16 @@ package core
 
 //@ func (*FindRules).Do
 //@   assert[C04.child_carries_its_rule_id] at "append(w.Children, child)": rule.Id == id
-//@   assert[C04.child_has_bindings]        at "append(w.Children, child)": len(bss) > 0 && (rule.When == nil ==> len(bss) == 1 && bss[0] != nil)
+//@   assert[C04+C13.child_has_bindings]        at "append(w.Children, child)": len(bss) > 0 && (rule.When == nil ==> len(bss) == 1 && bss[0] != nil)
 
 //@ func (*EvalRule).Do
 //@   ensures[C04.one_condition_node_per_binding_set] len(w.Children) == len(w.Bindingss)
 //@   loop 1: invariant[C04.evalrule_loop] len(w.Children) == rangeindex + 1 && rangeindex < len(w.Bindingss) && len(w.Bindingss) == old(len(w.Bindingss))
 
 //@ func (*EvalRuleCondition).Do
-//@   assert[C04.event_bound_iff_absent]    at "bs[\"?event\"]": !has(bs, "?event")
-//@   assert[C04.location_bound_iff_absent] at "bs[\"?location\"]": !has(bs, "?location")
-//@   assert[C04.ruleid_bound_iff_absent]   at "bs[\"?ruleId\"]": !has(bs, "?ruleId")
+//@   assert[C04+C01.event_bound_iff_absent]    at "bs[\"?event\"]": !has(bs, "?event")
+//@   assert[C04+C01.location_bound_iff_absent] at "bs[\"?location\"]": !has(bs, "?location")
+//@   assert[C04+C01.ruleid_bound_iff_absent]   at "bs[\"?ruleId\"]": !has(bs, "?ruleId")
 
 //@ func (*Location).WorkWalk
 //@   assert[C04.serial_value_only_when_complete] at "append(w.Values, era.Value)": era.Disposition == Complete
